@@ -2,6 +2,8 @@
 From Coq Require Import String List Bool Permutation NArith.
 Import ListNotations.
 Require Import V.Lib.PyStr V.Args.Model V.Args.Proofs V.Args.Reports V.Args.ValueModel V.Args.Values V.Args.Minimal.
+From Coq Require Import Sorted.
+Require Import V.Args.LoopModel V.Args.LoopValues.
 Open Scope string_scope.
 
 (* For every list of declared references (any number, any spellings, any values), every argument
@@ -242,6 +244,98 @@ Proof.
 Qed.
 Print Assumptions C10_exact_session.
 
+(* ---- references from OUTSIDE a DoWhile loop to a looped component (LoopModel.v): the reference names the
+   loop's PLACEHOLDER (stage1.step), the graph holds one instance per iteration (stage1.<k>#step).
+   Non-aggregating methods (ref, output, copy ...): the value is the one the reference has against the LATEST
+   instance - one of the instances, with the greatest iteration number; its working directory, its stdout, its
+   isRepeat - while the spellings stay those of the placeholder.  (C10_value_path / _output / _stdout then say
+   what that value is.) *)
+Theorem C10_value_placeholder : forall fs l insts,
+  l_insts l = Some insts -> insts <> [] -> is_loop (l_method l) = false ->
+  exists i, In i insts /\ (forall j, In j insts -> (i_iter j <= i_iter i)%N) /\
+            lvalue fs l = arg_value fs (inst_sref l i) /\
+            s_abs (inst_sref l i) = l_abs l /\ s_rel (inst_sref l i) = l_rel l /\
+            s_loc (inst_sref l i) = i_loc i /\ s_repeat (inst_sref l i) = i_repeat i /\
+            s_file (inst_sref l i) = s_file (l_ref l) /\ s_method (inst_sref l i) = l_method l /\
+            s_direct (inst_sref l i) = false.
+Proof.
+  intros fs l insts N E L. destruct (latest_inst_some insts E) as [i T]. exists i.
+  destruct (latest_inst_spec insts i T) as [I M]. split; [exact I|]. split; [exact M|].
+  split; [apply (value_placeholder fs l insts i N L T)|]. repeat split.
+Qed.
+Print Assumptions C10_value_placeholder.
+
+(* an ordinary producer: nothing changes *)
+Theorem C10_value_plain : forall fs l,
+  l_insts l = None -> is_loop (l_method l) = false -> lvalue fs l = arg_value fs (l_ref l).
+Proof. exact value_plain. Qed.
+Print Assumptions C10_value_plain.
+
+(* Placeholder:loopref - one path per instance (its working directory, joined with the file part as written),
+   in the order of the iteration numbers, separated by single blanks, whatever the file system holds. *)
+Theorem C10_value_loopref : forall fs l insts,
+  l_insts l = Some insts -> l_method l = "loopref" ->
+  exists sorted, Permutation sorted insts /\ StronglySorted iter_le sorted /\
+    lvalue fs l = Some (join " " (map (fun i => reference_path (inst_sref l i)) sorted)) /\
+    (forall i, reference_path (inst_sref l i) =
+               match s_file (l_ref l) with None => i_loc i | Some f => path_join (i_loc i) f end).
+Proof.
+  intros fs l insts N M. exists (sort_insts insts).
+  split; [apply sort_insts_perm|]. split; [apply sort_insts_sorted|].
+  split; [apply (value_loopref fs l insts N M)|]. reflexivity.
+Qed.
+Print Assumptions C10_value_loopref.
+
+(* Placeholder[/file]:loopoutput (instances that do not repeat) - one FIELD per instance, in the order of the
+   iteration numbers, separated by single blanks: the contents of that instance's file (the file part, or
+   out.stdout) without its trailing newlines - an EMPTY file keeps its empty field, so the k-th field belongs to
+   the k-th iteration and to the k-th path of the companion loopref.  If exactly one of the files cannot be read
+   (missing, a directory) the whole value is '' (resolveArguments tolerates one missing output); if two or more
+   cannot, resolveArguments raises. *)
+Theorem C10_value_loopoutput : forall fs l insts,
+  l_insts l = Some insts -> l_method l = "loopoutput" ->
+  (s_file (l_ref l) = None -> forallb (fun i => negb (i_repeat i)) insts = true) ->
+  exists sorted, Permutation sorted insts /\ StronglySorted iter_le sorted /\
+    let cs := map (fun i => field_content fs (path_join (i_loc i) (loop_file l))) sorted in
+    List.length cs = List.length insts /\
+    (List.length (filter is_none cs) = 0 -> lvalue fs l = Some (join " " (map or_empty cs))) /\
+    (List.length (filter is_none cs) = 1 -> lvalue fs l = Some "") /\
+    (List.length (filter is_none cs) >= 2 -> lvalue fs l = None) /\
+    (forall p v, field_content fs p = Some v <-> exists c, lookup fs p = Some (File c) /\ v = rstrip_nl c).
+Proof.
+  intros fs l insts N M R. exists (sort_insts insts).
+  split; [apply sort_insts_perm|]. split; [apply sort_insts_sorted|].
+  destruct (value_loopoutput_plain fs l insts N M R) as [A [B [C D]]].
+  cbv zeta. split; [exact A|]. split; [exact B|]. split; [exact C|]. split; [exact D|].
+  intros p v. apply field_content_spec.
+Qed.
+Print Assumptions C10_value_loopoutput.
+
+(* End to end with placeholders and aggregating methods, and for a loop that ADVANCES while an outside consumer
+   is resolved again and again (one list of instances per placeholder and one file system per call): under
+   `separated` for the values of the call, every answer is the token-wise substitution with each reference's own
+   value at that call. *)
+Theorem C10_exact_loops : forall fs ls ds ps,
+  to_drefs_l fs ls = Some ds -> separated ds ps ->
+  resolve_args ds (flatten ps) = spec_own_l fs ls ps /\
+  (forall s, render_own_l fs ls (Lit s) = Lit s) /\
+  (forall t l, List.find (fun l => l_denotes l t) ls = Some l ->
+               render_own_l fs ls (Tok t) = match lvalue fs l with Some v => Lit v | None => Tok t end) /\
+  (forall t, List.find (fun l => l_denotes l t) ls = None -> render_own_l fs ls (Tok t) = Tok t).
+Proof.
+  intros fs ls ds ps H S. split; [apply (exact_values_l fs ls ds ps H S)|]. split; [reflexivity|]. split.
+  - intros t l F. apply render_own_l_value, F.
+  - intros t F. cbn [render_own_l]. rewrite F. reflexivity.
+Qed.
+Print Assumptions C10_exact_loops.
+
+Theorem C10_exact_loop_session : forall ls ps steps,
+  forallb (fun st => separated_onb_l (snd st) (map (with_insts (fst st)) ls) ps) steps = true ->
+  loop_session ls (flatten ps) steps =
+  map (fun st => spec_on_l (snd st) (map (with_insts (fst st)) ls) ps) steps.
+Proof. exact exact_loop_session. Qed.
+Print Assumptions C10_exact_loop_session.
+
 (* ---- the hypothesis `separated` is decidable: the boolean checker evaluated on every case of the run
    is sound and complete.  (That none of its clauses can be dropped: Refuted.v, C10_*_clause_needed.) *)
 Theorem C10_separated_decidable : forall refs ps,
@@ -296,6 +390,24 @@ Definition ex_fs_rep : fsys :=
     ("/I/stages/stage1/BB/streams/99.stdout", File "it 99"); ("/I/stages/stage1/BB/streams/100.stdout", File "it 100") ].
 Definition ex_ps_rep : list piece :=
   [ Lit "--last "; Tok "stage0.AB:output"; Lit " mine="; Tok "BB:output"; Lit " again="; Tok "stage0.AB:output" ].
+(* a DoWhile loop in stage 1 with the looped component `step`, after its third iteration (the instances as
+   WorkflowGraph._placeholders lists them: any order); the second iteration printed nothing into result.txt;
+   a stage-2 consumer reads the latest directory, the latest value, all the directories and all the values *)
+Definition ex_insts : list inst :=
+  [ mk_inst 2 "/I/stages/stage1/2#step" false; mk_inst 0 "/I/stages/stage1/0#step" false;
+    mk_inst 1 "/I/stages/stage1/1#step" false ].
+Definition ex_ph (file : option string) (m : string) : lref :=
+  mk_lref (mk_sref "stage1.step" "step" file m false "/I/stages/stage1/step" false) (Some ex_insts).
+Definition ex_lrefs : list lref :=
+  [ ex_ph None "ref"; ex_ph (Some "result.txt") "output"; ex_ph None "loopref"; ex_ph (Some "result.txt") "loopoutput";
+    mk_lref (mk_sref "stage0.A" "A" None "ref" false "/I/stages/stage0/A" false) None ].
+Definition ex_fs_loop : fsys :=
+  [ ("/I/stages/stage1/0#step/result.txt", File ("0.50" ++ String nl ""));
+    ("/I/stages/stage1/1#step/result.txt", File "");
+    ("/I/stages/stage1/2#step/result.txt", File ("0.81" ++ String nl (String nl ""))) ].
+Definition ex_ps_loop : list piece :=
+  [ Lit "--dir "; Tok "stage1.step:ref"; Lit " --last "; Tok "stage1.step/result.txt:output"; Lit " --dirs ";
+    Tok "stage1.step:loopref"; Lit " --values "; Tok "stage1.step/result.txt:loopoutput"; Lit " "; Tok "stage0.A:ref" ].
 Example C10_nonvacuous :
   separatedb ex_refs ex_ps = true /\ unambiguousb ex_refs ex_ps = true /\
   resolve_args ex_refs (flatten ex_ps) =
@@ -324,5 +436,20 @@ Example C10_nonvacuous :
   path_to_stdout ex_fs_rep ex_mon = Some "/I/stages/stage0/AB/streams/10.stdout" /\
   separated_onb ex_fs_rep [ex_mon; ex_mon1] ex_ps_rep = true /\
   session [ex_mon; ex_mon1] (flatten ex_ps_rep) [ex_fs_rep; ex_fs3] =
-    [ Some "--last it 10 mine=it 100 again=it 10"; Some "--last  mine= again=" ].
+    [ Some "--last it 10 mine=it 100 again=it 10"; Some "--last  mine= again=" ] /\
+  (* placeholders: the latest instance; one field per iteration, the empty one kept; one missing file -> '' *)
+  latest_inst ex_insts = Some (mk_inst 2 "/I/stages/stage1/2#step" false) /\
+  map i_iter (sort_insts ex_insts) = [0; 1; 2]%N /\
+  separated_onb_l ex_fs_loop ex_lrefs ex_ps_loop = true /\
+  resolve_on_l ex_fs_loop ex_lrefs (flatten ex_ps_loop) =
+    Some ("--dir /I/stages/stage1/2#step --last 0.81 --dirs /I/stages/stage1/0#step /I/stages/stage1/1#step " ++
+          "/I/stages/stage1/2#step --values 0.50  0.81 /I/stages/stage0/A") /\
+  lvalue (List.tl ex_fs_loop) (ex_ph (Some "result.txt") "loopoutput") = Some "" /\
+  lvalue [] (ex_ph (Some "result.txt") "loopoutput") = None /\
+  lvalue [] (mk_lref (mk_sref "stage0.A" "A" None "loopref" false "/I/stages/stage0/A" false) None) = None /\
+  loop_session ex_lrefs (flatten ex_ps_loop)
+    [ ([("stage1.step", [mk_inst 0 "/I/stages/stage1/0#step" false])], ex_fs_loop); ([], ex_fs_loop) ] =
+    [ Some ("--dir /I/stages/stage1/0#step --last 0.50 --dirs /I/stages/stage1/0#step --values 0.50 " ++
+            "/I/stages/stage0/A");
+      resolve_on_l ex_fs_loop ex_lrefs (flatten ex_ps_loop) ].
 Proof. vm_compute. repeat split; reflexivity. Qed.
